@@ -166,3 +166,53 @@ Example C13_volatile_expr_satisfiable :
      eval (lookup [(0%N, 1#1); (1%N, 2#1); (2%N, 10#1)]) e = Some (12#1)) /\
   (exists d', denote_scope (rebuild s [(2%N, 10#1)]) = Ok d' /\ lookup d' 0%N = Some (12#1)).
 Proof. vm_compute. repeat split; eauto 6. Qed.
+
+(* ---------------------------------------------------------------- round 2: the modelled __eq__ is an equivalence *)
+Require Import QV.C13.ProofsEq.
+
+Theorem C13_eq_refl : forall s, wf_scope s = true -> scope_eqb s s = true.
+Proof. exact scope_eqb_refl. Qed.
+Print Assumptions C13_eq_refl.
+
+Theorem C13_eq_sym : forall a b, wf_scope a = true -> wf_scope b = true -> scope_eqb a b = scope_eqb b a.
+Proof. exact scope_eqb_sym. Qed.
+Print Assumptions C13_eq_sym.
+
+Theorem C13_eq_trans : forall a b c, wf_scope a = true -> wf_scope b = true -> wf_scope c = true ->
+  scope_eqb a b = true -> scope_eqb b c = true -> scope_eqb a c = true.
+Proof. intros a b c Ha Hb Hc. exact (scope_eqb_trans a Ha b c Hb Hc). Qed.
+Print Assumptions C13_eq_trans.
+
+(* distinct keys are needed: without them the modelled == is not reflexive *)
+Theorem C13_eq_refl_needs_wf : exists s, wf_scope s = false /\ scope_eqb s s = false.
+Proof. exact scope_eqb_refl_needs_wf. Qed.
+Print Assumptions C13_eq_refl_needs_wf.
+
+(* change_constants yields a scope EQUAL (modelled ==) to the one built from the changed constants *)
+Theorem C13_change_eq : forall s c nc, wf_scope (rebuild s nc) = true ->
+  scope_eqb (ch_scope (cc s c nc)) (rebuild s nc) = true.
+Proof. intros s c nc H. rewrite (proj1 (cc_scope_rebuild s c nc)). now apply scope_eqb_refl. Qed.
+Print Assumptions C13_change_eq.
+
+(* SHARED SUB-SCOPE OBJECTS: a joint scope whose entries are one Python object share that object's memoisation
+   fields, i.e. an entry may find cache contents written through another entry.  Every such state satisfies
+   `cache_ok` (each entry's cache state is valid for the entry's sub-scope, whoever wrote it), and from every
+   cache_ok state every history returns what it returns on fresh objects *)
+Theorem C13_any_valid_cache_state : forall s c ops, cache_ok s c -> run (s, c) ops = run (s, cempty) ops.
+Proof. intros s c ops H. rewrite (run_refines ops s c H), (run_refines ops s cempty (cache_ok_empty s)). reflexivity. Qed.
+Print Assumptions C13_any_valid_cache_state.
+
+(* e.g. two entries over the same sub-scope, the second holding the cache the first one filled *)
+Example C13_shared_cache_state_valid :
+  let sub := SMapped (SDict [(0%N, 1#1); (1%N, 2#1)] [0%N]) [(2%N, EAdd (EVar 0%N) (EVar 1%N))] in
+  let j := SJoint [(2%N, sub); (0%N, sub)] in
+  let c1 := snd (exec (j, cempty) [OGet 2%N; OVol]) in
+  let shared := set_kids c1 [hd cempty (c_kids c1); hd cempty (c_kids c1)] in
+  c_cache (hd cempty (c_kids c1)) = [(2%N, 3#1)] /\ cache_ok j shared.
+Proof.
+  intros sub j c1 shared. split; [vm_compute; reflexivity|].
+  pose proof (exec_cache_ok [OGet 2%N; OVol] j cempty (cache_ok_empty j)) as H.
+  assert (fst (exec (j, cempty) [OGet 2%N; OVol]) = j) as E by (vm_compute; reflexivity).
+  rewrite E in H. fold c1 in H. apply cache_ok_joint in H. destruct H as (A & B & K1 & K2 & _).
+  apply cache_ok_joint. subst shared. cbn [set_kids c_asd c_vc c_kids kids_ok hd tl snd]. split; [exact A|]. split; [exact B|]. split; [exact K1|]. split; [exact K1|exact I].
+Qed.
